@@ -683,7 +683,7 @@ GP_NONNULL_ARGS()
 static size_t gp_u32_append(
     GPArray(uint32_t)restrict*restrict u32, uint32_t*restrict codepoints, size_t codepoints_length)
 {
-    *u32 = gp_arr_reserve(sizeof (*u32)[0], *u32, gp_arr_capacity(*u32) + codepoints_length - 1);
+    *u32 = gp_arr_reserve(sizeof (*u32)[0], *u32, gp_arr_length(*u32) + codepoints_length);
     size_t utf8_length = 0;
     for (size_t i = 0; i < codepoints_length; ++i) {
         (*u32)[gp_arr_length(*u32) + i] = codepoints[i];
@@ -1143,7 +1143,8 @@ GP_NONNULL_ARGS()
 static void gp_wcs_append(
     GPArray(wchar_t)restrict*restrict wcs, wchar_t*restrict codepoints, size_t codepoints_length)
 {
-    *wcs = gp_arr_reserve(sizeof (*wcs)[0], *wcs, gp_arr_capacity(*wcs) + codepoints_length - 1);
+    *wcs = gp_arr_reserve(sizeof (*wcs)[0], *wcs,
+        gp_arr_length(*wcs) + codepoints_length + 1); // + 1: room for the terminator
     for (size_t i = 0; i < codepoints_length; ++i)
         (*wcs)[gp_arr_length(*wcs) + i] = codepoints[i];
     ((GPArrayHeader*)*wcs - 1)->length += codepoints_length;
